@@ -45,8 +45,11 @@ API
   chunk_encode(chunks, last, trailers, eol="crlf", chunk_eol="crlf") -> bytes    reference chunked ENCODER
   chunk_decode(data) -> (body, trailers, parms, rest)     strict reference DECODER (CRLF framing), raises ValueError
   gen_request(rng, **opts) / gen_response(rng, **opts)    one message description (opts below)
-  gen_sequence(rng, kind, n=None, **opts)  pipelined sequence of 1-4 descriptions: every message but the last is
-                                          persistent and self-delimiting; all share req_method
+  gen_sequence(rng, kind, n=None, maxtotal=None, **opts)
+                                          pipelined sequence of 1-4 descriptions (fewer when the encoded total would pass
+                                          maxtotal): every message but the last is persistent and self-delimiting; all
+                                          share req_method; eol=None picks ONE style for the sequence, eol="mixed" picks
+                                          a style per message.  The wire bytes are b"".join(s2b(d["raw"]) for d in seq)
   encode(desc) -> bytes                   (re)encode a description (after you changed fields yourself)
   two_splits(n), all_one_byte(n), random_cuts(rng, n, k), crlf_cuts(data), pieces(data, cuts)   partitions
       a partition is a sorted list of cut offsets 0 < c < len(data); pieces() applies it
